@@ -479,9 +479,10 @@ func (s *Session) Serve(h Handler) (err error) {
 	}()
 
 	for {
+		ctx := s.inputContext()
 		select {
-		case <-s.in.ctx.Done():
-			return s.in.ctx.Err()
+		case <-ctx.Done():
+			return ctx.Err()
 		default:
 		}
 		verifhook.Yield("serve.iter")
@@ -946,12 +947,24 @@ func (s *Session) RemoteAddr() jid.JID {
 // as closed and any blocking calls to Serve will return an error.
 // This is normally called just before a call to Close.
 func (s *Session) SetCloseDeadline(t time.Time) error {
+	// The input context is read by Serve and canceled by closeInputStream
+	// concurrently with this call: replace it under the state lock.
+	s.stateMutex.Lock()
 	oldCancel := s.in.cancel
 	s.in.ctx, s.in.cancel = context.WithDeadline(context.Background(), t)
+	s.stateMutex.Unlock()
 	if oldCancel != nil {
 		oldCancel()
 	}
 	return s.Conn().SetReadDeadline(t)
+}
+
+// inputContext returns the context that is canceled when the input stream is
+// closed or the close deadline passes.
+func (s *Session) inputContext() context.Context {
+	s.stateMutex.RLock()
+	defer s.stateMutex.RUnlock()
+	return s.in.ctx
 }
 
 // Encode writes the XML encoding of v to the stream.
